@@ -1,0 +1,45 @@
+//go:build verif
+
+// Contracts for govc (see /verif/DESIGN.md). Comment-only file: no executable code.
+
+package merkle
+
+// ---------------------------------------------------------------------------
+// C20: the state sync builder stores a value only when a request for its hash is outstanding, writes
+// it into the bucket of every requester before that requester is told, and drops the request exactly
+// once, after all requesters have been served (ghosts: bk_set_* / real_bucket*: db/zz_contracts_verif.go;
+// list_removed: /verif/specs/list.gospec; mb_notified: number of DataRequester.OnData calls)
+// ---------------------------------------------------------------------------
+//@ property C20
+//@ smt all (declare-ghost mb_notified Int)
+//@ func (r DataRequester) OnData(value, builder) (err)
+//@   iface
+//@   trusted
+//@   modifies *
+//@   opt ghost:mb_notified ghost(mb_notified) + 1
+
+//@ func (b *merkleBuilder) OnData(bid, value) (err)
+//@   arith int
+//@   nosafety
+//@   modifies *
+//@   opt no-callee-pre
+//@   opt inline-none
+//@   opt protect b.resolved, value[*]
+//@   opt protect-local key[*]
+//@   requires b != nil
+//@   callpre Bucket.Set: ok
+//@   callpre Bucket.Set: key == caller_key
+//@   callpre Bucket.Set: value == caller_value
+//@   callpre Bucket.Set: b == ghost(real_bucket)
+//@   callpre Bucket.Set: ghost(real_bucket_id) == req.bucketIDs[rangeindex]
+//@   callpre Bucket.Set: seq(key) == hasher_hash(hasher, seq(value))
+//@   callpre DataRequester.OnData: value == caller_value
+//@   callpre DataRequester.OnData: ghost(bk_set_n) == old(ghost(bk_set_n)) + rangeindex + 1
+//@   callpre DataRequester.OnData: ghost(bk_set_on) == ghost(real_bucket)
+//@   callpre DataRequester.OnData: ghost(real_bucket_id) == req.bucketIDs[rangeindex]
+//@   callpre DataRequester.OnData: ghost(bk_set_key) == key
+//@   callpre DataRequester.OnData: ghost(bk_set_val) == caller_value
+//@   callpre Remove: e == caller_e
+//@   ensures [kept_on_error] err != nil ==> ghost(list_removed) == old(ghost(list_removed)) && b.resolved == old(b.resolved)
+//@   ensures [dropped_once] err == nil ==> ghost(list_removed) == old(ghost(list_removed)) + 1 && b.resolved == old(b.resolved) + 1
+//@   loop 0: invariant -1 <= rangeindex && ghost(mb_notified) == old(ghost(mb_notified)) + rangeindex + 1 && ghost(bk_set_n) == old(ghost(bk_set_n)) + rangeindex + 1 && ghost(list_removed) == old(ghost(list_removed)) && b.resolved == old(b.resolved)
